@@ -73,7 +73,7 @@ func (x *c18go) Describe() string {
 
 // signatures of the reference store stay as they were; other stores are named
 func storeSig(name string) string {
-	if name == "reference-store" {
+	if name == "reference-store" || name == "reference-store-eager" {
 		return ""
 	}
 	return "/" + name
